@@ -211,3 +211,82 @@ def run_rounds_all(ctx, rp, cfgs, max_paths=None, par=3):
         raise errs[0]
     ctx.extra["round_mixes"] = ["%s rounds=%s foreign=%s await=%s" % ("+".join(c["P"][p] for p in sorted(c["P"])), [c["rounds"][p] for p in sorted(c["P"])],
                                                                      c["foreign"], c["await"]) for c in cfgs]
+
+
+# ------------------------------------------------------------------------------------------------------------
+# code -> spec: random schedules of mixes beyond the dumpable bound, validated by TLC against MutexRoundsTrace.tla
+# ------------------------------------------------------------------------------------------------------------
+EXPLORE_QUICK = [
+    C(["co", "co", "bl", "co", "try"], [1, 1, 1, 1, 1]),
+    C(["co", "co", "bl", "co"], [2, 2, 1, 2], foreign=[3], aw=[1]),
+]
+EXPLORE_MORE = [
+    C(["co", "co", "co", "co", "co", "bl"], [1, 1, 1, 1, 1, 1]),
+    C(["co", "bl", "co", "bl"], [2, 2, 2, 2], foreign=[1, 2], aw=[3]),
+    C(["co", "co", "co"], [3, 3, 3], aw=[2]),
+    C(["co", "try", "bl", "co", "try"], [2, 2, 2, 1, 2], foreign=[4]),
+]
+
+
+def explore_validate(ctx, rp, cfg, tag, runs):
+    import vlib
+    from framework import MachineryError
+    os.makedirs(vlib.BUILD, exist_ok=True)
+    trace = os.path.join(vlib.BUILD, "%s_%s.ndjson" % (ctx.prop, tag))
+    script = os.path.join(vlib.BUILD, "%s_%s_ex.script" % (ctx.prop, tag))
+    desc = "%s rounds=%s foreign=%s await=%s" % ("+".join(cfg["P"][p] for p in sorted(cfg["P"])), [cfg["rounds"][p] for p in sorted(cfg["P"])], cfg["foreign"], cfg["await"])
+    for variant in (False, True):
+        hdr = header_rounds(cfg, ctx.seed + (1 if variant else 0))
+        hdr["reuse"] = variant
+        hdr["explore"] = {"runs": runs, "seed": ctx.seed + (7 if variant else 0), "out": trace}
+        with open(script, "w") as f:
+            f.write("BEGIN ex %s\nEND\n" % vlib.canon(hdr))
+        rc, out = vlib.run_cmd([rp], stdin_path=script, timeout=1800, env={"REPLAY_SCENARIO_TIMEOUT": "1700"})
+        os.remove(script)
+        if rc != 0 or not os.path.exists(trace):
+            ctx.violation("explore:crash:%s" % tag, "exploration of the mutex mix %s terminated abnormally (deadlock or crash): %s" % (desc, out[-800:]),
+                          "#replayer mutex_replay\n#exploration crashed / deadlocked\n" + out[-2000:], kind="txt")
+            return
+        lines = open(trace).readlines()
+        # TLC: MC module with the mix constants, EXTENDS MutexRoundsTrace
+        sd = os.path.join(vlib.VERIF, "spec", "Mutex")
+        mc = "MC_%s_%s" % (ctx.prop, tag)
+        with open(os.path.join(vlib.BUILD, mc + ".tla"), "w") as f:
+            f.write("---- MODULE %s ----\nEXTENDS MutexRoundsTrace\n" % mc)
+            for k, v in rounds_defs(cfg).items():
+                f.write("def_%s == %s\n" % (k, v))
+            f.write("====\n")
+        cfg2 = os.path.join(vlib.BUILD, mc + ".cfg")
+        with open(cfg2, "w") as f:
+            f.write(open(os.path.join(sd, "MutexRoundsTrace_base.cfg")).read())
+            f.write("\nCONSTANTS\n" + "\n".join("  %s <- def_%s" % (k, k) for k in rounds_defs(cfg)) + "\n")
+        res = None
+        for attempt in range(2):
+            res = vlib.run_tlc(vlib.BUILD, mc, cfg2, "%s_%s_tv" % (ctx.prop, tag), workers=1, coverage=False, timeout=1800,
+                               env={"TRACE": trace}, jvm_opts=["-DTLA-Library=" + sd])
+            if res.ok:
+                break
+            if res.error and not res.violation:
+                raise MachineryError("trace validation failed to run (MutexRoundsTrace): %s" % res.error)
+        for fn in (mc + ".tla", mc + ".cfg"):
+            try:
+                os.remove(os.path.join(vlib.BUILD, fn))
+            except OSError:
+                pass
+        ctx.states += res.distinct
+        ctx.transitions += res.generated
+        ctx.models.append({"module": "MutexRoundsTrace", "cfg": "MutexRoundsTrace_base.cfg", "mix": desc, "reuse": variant, "trace_lines": len(lines),
+                           "distinct": res.distinct, "accepted": bool(res.ok), "violation": res.violation})
+        if res.ok:
+            ctx.traces += runs
+            ctx.steps += len(lines)
+        else:
+            matched = max(0, res.distinct - 1)
+            bad = lines[matched] if matched < len(lines) else "(end)"
+            txt = "# trace rejected by MutexRoundsTrace.tla (%s); mix %s; matched prefix = %d lines; offending line:\n# %s\n" % (res.violation, desc, matched, bad.strip())
+            ctx.violation("trace:%s:%s" % (tag, res.violated_name), "recorded execution of the real mutex is not a behaviour of MutexRounds.tla "
+                          "(mix %s, %s): line %d: %s" % (desc, res.violation, matched + 1, bad.strip()[:400]),
+                          txt + "".join(lines[max(0, matched - 40):matched + 1]), kind="ndjson")
+            os.remove(trace)
+            return
+        os.remove(trace)
